@@ -77,10 +77,15 @@ ArmJump(e) ==
 \* ------------------------------------------------------------------ x86-64 (simulated addresses)
 X64Jump(e) ==
   LET segs == {[base |-> e.src, bytes |-> e.entry], [base |-> e.tramp, bytes |-> e.trampb]}
+              \cup (IF "extra" \in DOMAIN e THEN {[base |-> e.extra[i].base, bytes |-> e.extra[i].bytes] : i \in 1..Len(e.extra)} ELSE {})
       r == X!Run(segs, e.src)
-  IN /\ ~Unknown(r)
+      \* an instruction the model does not know is a failure in bytes the LIBRARY emitted; inside compiled code of the host that
+      \* a trampoline forwards to (extra) it only makes the byte-level verdict inconclusive
+      inExtra == "extra" \in DOMAIN e /\ \E i \in 1..Len(e.extra) :
+                    LET d == Sub(r.pc, e.extra[i].base) IN IsSmall(d) /\ Small(d) < Len(e.extra[i].bytes)
+  IN /\ (inExtra \/ ~Unknown(r))
      /\ IF e.kind = "bool"
-        THEN Req("C01", r.status \in {"ret", "unknown"}) /\ Req("C10", r.status = "ret" => r.rax = FromNat(e.v, 8))
+        THEN Req("C01", r.status \in {"ret", "unknown"}) /\ Req("C10", r.status = "ret" => r.rax[1] = e.v)
         ELSE /\ Req("C01", r.status \in {"left", "unknown"} /\ (r.status = "left" => r.pc = e.fake))
              \* C11: the placement the allocator accepted is within reach of the branch the encoder then writes
              /\ Req("C11", r.status \in {"left", "unknown"} /\ (r.status = "left" => r.pc = e.fake))
